@@ -33,8 +33,8 @@ BUDGET = {
     "C09": (80000, 70, 3000000, 900),
     "C12": (32000, 70, 1200000, 900),
     "C13": (12000, 70, 450000, 900),
-    "C16": (2400, 70, 70000, 900),
-    "C17": (1200, 70, 28000, 900),
+    "C16": (2400, 240, 70000, 900),
+    "C17": (1200, 240, 28000, 900),
     "C18": (40000, 70, 1500000, 900),
 }
 
